@@ -1,6 +1,7 @@
 package main
 
 import (
+	"go/ast"
 	"fmt"
 	"go/constant"
 	"go/types"
@@ -503,6 +504,47 @@ func checkReadHeaderInfo(w *World, r *Report, rh *ssa.Function) {
 			}
 		}
 	}
+	// the line-reading loop may live in an unexported helper that is handed the reader: the helper's error must then be
+	// returned as it is, and the loop rules apply to the helper
+	rhOuter := rh
+	if len(readCalls) == 1 {
+		if callee := readCalls[0].Call.StaticCallee(); callee != nil && callee.Pkg == rh.Pkg && !ast.IsExported(callee.Name()) && len(callee.Blocks) > 0 {
+			hc := readCalls[0]
+			pj := -1
+			for j, a := range hc.Call.Args {
+				if a == ssa.Value(rh.Params[0]) {
+					pj = j
+				}
+			}
+			okProp := false
+			if iff, ok := hc.Block().Instrs[len(hc.Block().Instrs)-1].(*ssa.If); ok && pj >= 0 {
+				ct := e.termOf(iff.Cond).String()
+				if strings.HasPrefix(ct, "ne(#1(") || strings.HasPrefix(ct, "ne(nil, #1(") {
+					if ret, ok := hc.Block().Succs[0].Instrs[len(hc.Block().Succs[0].Instrs)-1].(*ssa.Return); ok && len(ret.Results) == 2 {
+						if ex, ok := ret.Results[1].(*ssa.Extract); ok && ex.Tuple == ssa.Value(hc) && e.termOf(ret.Results[0]).String() == "nil" {
+							okProp = true
+						}
+					}
+				}
+			}
+			r.Check(okProp, "M4", "the error of the header-reading helper is returned unchanged, with no partial description", w.InstrPos(hc), calleeName(hc))
+			if okProp {
+				rh = callee
+				readCalls = nil
+				for _, b := range rh.Blocks {
+					for _, in := range b.Instrs {
+						if c, ok := in.(*ssa.Call); ok {
+							for _, a := range c.Call.Args {
+								if a == ssa.Value(rh.Params[pj]) {
+									readCalls = append(readCalls, c)
+								}
+							}
+						}
+					}
+				}
+			}
+		}
+	}
 	okOnly := len(readCalls) == 1 && calleeName(readCalls[0]) == "bufio.Reader.ReadString"
 	r.Check(okOnly, "M4", "the header is read only through ReadString on the shared reader (nothing beyond the terminating line is consumed)", w.Pos(rh.Pos()), fmt.Sprint(len(readCalls)))
 	if !okOnly {
@@ -546,7 +588,7 @@ func checkReadHeaderInfo(w *World, r *Report, rh *ssa.Function) {
 	r.Check(len(exits) == 1 && exits[0] == want, "M4", "the loop ends at the first blank line (after trimming spaces) and nowhere else", w.Pos(rh.Pos()), strings.Join(exits, " | "))
 	// yaml error returned
 	okY := false
-	for _, bb := range rh.Blocks {
+	for _, bb := range rhOuter.Blocks {
 		if iff, ok := bb.Instrs[len(bb.Instrs)-1].(*ssa.If); ok {
 			if strings.Contains(e.termOf(iff.Cond).String(), "yaml.v1.Unmarshal(") || strings.Contains(e.termOf(iff.Cond).String(), "Unmarshal(") {
 				if ret, ok := bb.Succs[0].Instrs[len(bb.Succs[0].Instrs)-1].(*ssa.Return); ok && e.termOf(ret.Results[0]).String() == "nil" {
@@ -555,7 +597,7 @@ func checkReadHeaderInfo(w *World, r *Report, rh *ssa.Function) {
 			}
 		}
 	}
-	r.Check(okY, "M4", "a YAML decoding error is returned", w.Pos(rh.Pos()), "")
+	r.Check(okY, "M4", "a YAML decoding error is returned", w.Pos(rhOuter.Pos()), "")
 }
 
 func reaches(from, to *ssa.BasicBlock) bool {
